@@ -49,6 +49,13 @@ def _unfold_continuations(code_string):
   # Literal parts of f-strings are separate tokens as of Python 3.12. The
   # replacement fields between them are ordinary code.
   fstring_middle = getattr(tokenize, 'FSTRING_MIDDLE', None)
+  fstring_start = getattr(tokenize, 'FSTRING_START', None)
+  fstring_end = getattr(tokenize, 'FSTRING_END', None)
+  # Rows whose line break lies anywhere inside an f-string. The text of a
+  # replacement field can be part of the string's value (`{x=}`), so no line
+  # may be added there either.
+  fstring_rows = set()
+  fstring_start_rows = []
   fully_tokenized = True
   try:
     for tok in tokenize.generate_tokens(io.StringIO(code_string).readline):
@@ -56,6 +63,11 @@ def _unfold_continuations(code_string):
         protected_rows.add(tok.start[0])
       elif tok.type == tokenize.STRING or tok.type == fstring_middle:
         string_rows.update(range(tok.start[0], tok.end[0]))
+      elif fstring_start is not None and tok.type == fstring_start:
+        fstring_start_rows.append(tok.start[0])
+      elif fstring_end is not None and tok.type == fstring_end:
+        if fstring_start_rows:
+          fstring_rows.update(range(fstring_start_rows.pop(), tok.end[0]))
   except (tokenize.TokenError, IndentationError, SyntaxError):
     # Incomplete or oddly indented code (e.g. a lambda cut out of its
     # statement). Rows seen so far are still handled properly.
@@ -74,7 +86,7 @@ def _unfold_continuations(code_string):
       continue
     new_lines.append(line)
     if (num_folded and fully_tokenized and line.endswith('\n') and
-        (i + 1) not in string_rows):
+        (i + 1) not in string_rows and (i + 1) not in fstring_rows):
       new_lines.append('\n' * num_folded)
       num_folded = 0
   return ''.join(new_lines)
